@@ -14,7 +14,14 @@ _CURVE_CACHE = {}
 
 
 def mixture_of(inp):
-    return getattr(Mixtures, inp.get("mixture") or "H2O_EtOH")
+    mix = getattr(Mixtures, inp.get("mixture") or "H2O_EtOH")
+    if inp.get("frost"):
+        # the same mixture with the first component's vapour pressure given by a Frost equation (constants of the library's own tests)
+        import attr
+        from pyvaporation.utils import VaporPressureConstants
+        c1 = attr.evolve(mix.first_component, vapour_pressure_constants=VaporPressureConstants(a=16.5191, b=-3937.6553, c=-190231.9062, type="frost"))
+        mix = attr.evolve(mix, first_component=c1)
+    return mix
 
 
 def membrane_for(mix, P1=0.036091, P2=0.0000282, Ea1=19944.0, Ea2=110806.0, Texp=323.15, two_points=False):
